@@ -73,4 +73,11 @@ pub trait StrictOps {
     // ---- optics ------------------------------------------------------------------------------
     /// (optic image, adapted optic image) of `f` under the strict Optic built from the plain optic
     fn optic_apply(f: &POpen<u8, u8>, o: std::sync::Arc<dyn crate::tf::PlainOptic>) -> Res<(POpen<u8, u8>, POpen<u8, u8>)>;
+
+    // ---- secondary entry points ----------------------------------------------------------------
+    /// strict::Hypergraph::coproduct and `&h + &h` (decoded as diagrams with empty interfaces), Hypergraph::empty()
+    /// and discrete(w) with is_discrete
+    fn hypergraph_level<O: Lab, A: Lab>(f: &POpen<O, A>, g: &POpen<O, A>) -> Res<(POpen<O, A>, POpen<O, A>, POpen<O, A>, (POpen<O, A>, bool))>;
+    /// source / target through the Arrow trait
+    fn source_target_trait<O: Lab, A: Lab>(f: &POpen<O, A>) -> Res<(Vec<O>, Vec<O>)>;
 }
